@@ -245,6 +245,9 @@ def setitem(interp, obj, idx, v, frame):
     if is_concrete(idx):
       obj[idx] = v
       return
+    if isinstance(idx, SAny):
+      interp.path.event('assumption', 'dict-store-with-opaque-key-dropped')
+      return
     raise unsupported('dict store with symbolic key')
   if isinstance(obj, SDict):
     if is_concrete(idx):
@@ -542,7 +545,17 @@ def call_builtin(interp, fn, args, kwargs, frame):
         return fn(*args, **kwargs)
       except Exception as ex:  # pylint: disable=broad-except
         raise pyraise(type(ex), *ex.args)
-    # instantiate a repository class: contract on __init__ or opaque object
+    # instantiate a repository class whose __init__ the policy inlines
+    init = fn.__dict__.get('__init__') or next(
+        (k.__dict__['__init__'] for k in fn.__mro__ if '__init__' in k.__dict__ and k is not object), None)
+    if isinstance(init, types.FunctionType):
+      key = f'{init.__module__}:{init.__qualname__}'
+      if key in interp.policy.inline or init.__module__ in interp.policy.inline_modules:
+        obj = SObj(fn, {})
+        obj.ghost['raw_setattr'] = False
+        interp.path.event('inline', key)
+        interp.call_function(init, [obj] + list(args), kwargs)
+        return obj
     h = interp.policy.handlers.get(('construct',))
     if h is not None:
       r = h(interp, fn, args, kwargs, frame)
